@@ -17,6 +17,12 @@ pub struct SrcSpec {
     /// the methods; the seeding contract names `fill_bytes`)
     #[serde(default)]
     pub words_differ: bool,
+    /// if > 0: every call (fill_bytes or a word method) consumes a whole number of blocks of this
+    /// many bytes and discards the rest of the last one — the way the block generators discard the
+    /// rest of a word. One request of a multiple of the block size is unaffected; the same bytes
+    /// requested in several smaller calls are a different stream
+    #[serde(default)]
+    pub call_block: usize,
 }
 
 impl SrcSpec {
@@ -62,6 +68,10 @@ impl ByteSrc {
     fn take(&mut self, n: usize) -> Vec<u8> {
         let v = self.spec.bytes(self.pos, n);
         self.pos += n;
+        let b = self.spec.call_block;
+        if b > 0 && self.pos % b != 0 {
+            self.pos += b - self.pos % b;
+        }
         v
     }
 }
@@ -126,6 +136,10 @@ impl FailSrc {
         }
         let v = self.spec.bytes(self.pos, n);
         self.pos += n;
+        let b = self.spec.call_block;
+        if b > 0 && self.pos % b != 0 {
+            self.pos += b - self.pos % b;
+        }
         Ok(v)
     }
 }
